@@ -1072,8 +1072,35 @@ class Engine:
 
     # -- calls --------------------------------------------------------------------------------------
     def ev_Call(self, e, st):
-        if any(isinstance(a, ast.Starred) for a in e.args) or any(k.arg is None for k in e.keywords):
-            raise Undecided("star arguments")
+        if any(k.arg is None for k in e.keywords):
+            raise Undecided("** arguments")
+        if any(isinstance(a, ast.Starred) for a in e.args):
+            # f(*t): a tuple / list of statically known length is spread
+            out = []
+            for s, f in self.ev(e.func, st):
+                if isinstance(f, VExc):
+                    out.append((s, f))
+                    continue
+                exprs = [a.value if isinstance(a, ast.Starred) else a for a in e.args]
+                for s2, vals in self.ev_seq(exprs + [k.value for k in e.keywords], s):
+                    if isinstance(vals, VExc):
+                        out.append((s2, vals))
+                        continue
+                    args = []
+                    for a, v in zip(e.args, vals[:len(e.args)]):
+                        if isinstance(a, ast.Starred):
+                            v = self.unbox_known(v, s2)
+                            if isinstance(v, VTuple):
+                                args += v.items
+                            elif isinstance(v, VList):
+                                args += list(s2.heap[v.addr].items)
+                            else:
+                                raise Undecided("*args of unknown length")
+                        else:
+                            args.append(v)
+                    kwargs = {k.arg: v for k, v in zip(e.keywords, vals[len(e.args):])}
+                    out += self.call(f, args, kwargs, s2)
+            return out
         # super()
         if isinstance(e.func, ast.Name) and e.func.id == "super" and not e.args:
             return [(st, VSuper(st.env["self"]))]
